@@ -332,7 +332,8 @@ pub fn run_pipe(s: &Script, plain: &[u8], ops: &[Vec<i64>], st: &mut Stats) -> R
         if clauses & PC_C12 != 0 && !status_done && !finishing {
             let is_mz = driver == 2;
             let eff_fl = if is_mz && fl >= 5 { 0 } else { fl };
-            if (eff_fl == 1 || eff_fl == 2 || eff_fl == 3) && clean_before && cin == inb.len() && has_space {
+            let sampled = flushes <= 24 || calls % 4099 == 0 || ops.len().saturating_sub(opi) < 24;
+            if (eff_fl == 1 || eff_fl == 2 || eff_fl == 3) && clean_before && cin == inb.len() && has_space && sampled {
                 st.inc("probe.qualified_flush");
                 let o = Opts { zlib: zlib_fmt, ring: None, tokens: false, max_out: 64 << 20, ignore_adler: true };
                 let v = refinf::inflate(&sink, &o);
